@@ -32,6 +32,24 @@ func RunDSL() error {
 		for _, root := range roots[start:] {
 			root.WalkSets(runSet)
 		}
+		// The executed DSL may have registered additional roots: execute
+		// them last.
+		all, err := Context.Roots()
+		if err != nil {
+			return err
+		}
+		for _, r := range all {
+			known := false
+			for _, o := range roots {
+				if o.EvalName() == r.EvalName() {
+					known = true
+					break
+				}
+			}
+			if !known {
+				roots = append(roots, r)
+			}
+		}
 		if recursed > 100 {
 			// Let's cross that bridge once we get there
 			return fmt.Errorf("too many generated roots, infinite loop?")
@@ -39,6 +57,11 @@ func RunDSL() error {
 	}
 	if Context.Errors != nil {
 		return Context.Errors
+	}
+	// Process the remaining phases in dependency order, including the roots
+	// registered during execution.
+	if roots, err = Context.Roots(); err != nil {
+		return err
 	}
 	for _, root := range roots {
 		prepareSet(ExpressionSet{root})
